@@ -5,7 +5,8 @@ def setup(register, COMMON_TB):
     register(
         "C17", coq="C17", coq_extra=["k8s", "ngx", "gen", "C04", "C08", "C01"], pkg="./internal/mode/static/", test="TestVerifC17",
         extra=[dict(pkg="./internal/mode/static/status/", test="TestVerifC08"),
-               dict(pkg="./internal/mode/static/", test="TestVerifC17Own")],
+               dict(pkg="./internal/mode/static/", test="TestVerifC17Own"),
+               dict(pkg="./internal/mode/static/state/graph/", test="TestVerifC17Parent")],
         rule="every generated cluster state (as C02) is run through the real handler twice: alone, and together with foreign objects that mimic the own "
              "ones (GatewayClass of another controller, an older Gateway of that class with the same listeners, copies of the own Routes attached to it, a "
              "mesh-style Route, a policy on the foreign Gateway); every Route starts with a status entry of another controller; non-trivial = at least 2 "
@@ -13,7 +14,7 @@ def setup(register, COMMON_TB):
              "function with faults injected and foreign entries that another writer changes between a Get and the Update; the entries of other "
              "controllers in every submitted status must be exactly those of the object served by the last Get. Third part (TestVerifC17Own, evaluated by "
              "C01/Check.v): histories whose only changes are ownership changes (a Gateway handed over to / taken from another class, the configured class "
-             "changing hands, Routes retargeted): configuration and statuses of the long-lived controller equal those of a fresh one",
+             "changing hands, Routes retargeted): configuration and statuses of the long-lived controller equal those of a fresh one Fourth part (TestVerifC17Parent, evaluated by C17/ParentCheck.v): the real buildSectionNameRefs on 0-4 generated parentRefs (kind/group absent, right or wrong; namespace absent, the Route's or another; names of our Gateways and look-alikes; sections; repeated pairs) and 0-3 Gateways of ours: the references kept equal the model's, and each names one of the Gateways handed in",
         trusted_base=COMMON_TB + [
             "ownership relation (C17/Check.v owned) over the abstract state",
             "configuration equality is decided on parsed files with top-level blocks as multisets and match keys replaced by the match lists they denote",
